@@ -2,11 +2,13 @@
 import io
 import json
 
+import numpy as np
+
 import absval as A
 import blockrun as B
 
 RULE = ("(2 % of the blocks, 8 % in the thorough tier, sit on the scale axis: 255 ... 65537 frames or 15 ... 257 items) " 
-        "[plus object life cycles as in C01: sized/encoded/decoded, edited in place, sized/encoded/decoded again] same generator as C01 (valid blocks of nine types, every nested item kind); per case three numbers for the block "
+        "[plus tracks whose deciding (first) component is +-inf/NaN while the others are finite: the three sizes must still agree] [plus object life cycles as in C01: sized/encoded/decoded, edited in place, sized/encoded/decoded again] same generator as C01 (valid blocks of nine types, every nested item kind); per case three numbers for the block "
         "(nBytes, len(_write), tell() after _build on bytes+sentinel tail) and (nBytes, len) per nested item; thorough: the 8 "
         "blocks of the BTS capture against the jump-table sizes. non-trivial as C01")
 ASSUMPTIONS = ["Data2D cells may be float32 or float64 arrays (the property's quantifier); on disk both are float32"]
@@ -53,8 +55,51 @@ def run(ctx):
         judge(ctx, kind, v, opts, r, m)
     from sessions.c01 import life_cycles
     life_cycles(ctx, judge, ctx.n(350, 8000))
+    deciding_component(ctx, ctx.n(200, 4000))
     if ctx.thorough or True:
         capture_sizes(ctx)
+
+
+def deciding_component(ctx, n):
+    """tracks in which the component that decides presence (the first one) is +inf, -inf or NaN while the others are
+    finite - e.g. a centre of pressure computed as M/Fz with Fz = 0. The library treats such a frame as missing; whatever it
+    does, the three sizes must agree. (Outside C01's domain: the frame does not read back as given.)"""
+    rng = ctx.rng
+    stages = []
+    for i in range(n):
+        kind = ["data3d", "emg", "force3d", "platdata"][i % 4]
+        v0 = A.GEN[kind](rng)
+        try:
+            obj = A.build(kind, v0, wide=rng.random() < 0.3)
+            hits = 0
+            for it, _ in B.items_of(kind, obj):
+                attr = B.TRACK_ARRAYS[kind][0]
+                arr = getattr(it, attr)
+                for j in range(len(arr)):
+                    if rng.random() < 0.3:
+                        val = rng.choice([np.inf, -np.inf, np.nan])
+                        if arr.ndim == 1:
+                            B._w(it, attr, j, val)
+                        else:
+                            B._w(it, attr, (j, 0), val)
+                        hits += 1
+            A.DECIDING_RULE[0] = True
+            try:
+                r = B.observe_obj(kind, obj)
+            finally:
+                A.DECIDING_RULE[0] = False
+        except Exception as e:
+            ctx.fail(f"{kind}: a block with a non-finite deciding component cannot be built/observed: {type(e).__name__}: {e}", dict(kind=kind, v=v0), ident=f"{kind} deciding component raises")
+            continue
+        if hits and "abs0" in r:
+            stages.append((kind, r["abs0"], dict(deciding_component_non_finite=hits, start=v0), r))
+    import numpy  # noqa: F401
+    models = B.model_side([(k, v) for k, v, _, _ in stages])
+    for (kind, v, opts, r), m in zip(stages, models):
+        if not m["valid"]:
+            continue
+        ctx.case((kind, v, "deciding"), nontrivial=True, tags=[kind, "deciding-component-non-finite"])
+        judge(ctx, kind, v, opts, r, m)
 
 
 def capture_sizes(ctx):
